@@ -153,9 +153,12 @@ Fixpoint uses_version (st : pstate) (s : string) : bool :=
           else normal
       end
   end.
-Definition known_C13_overwrite (P : project) : bool :=
-  (negb (uses_version PNormal (cf_pattern (pj_config P))) || N.eqb (max_version P) u32_max)%bool.
+Definition known_C13_pattern_without_version (P : project) : bool :=
+  negb (uses_version PNormal (cf_pattern (pj_config P))).
+Definition known_C13_version_saturated (P : project) : bool :=
+  N.eqb (max_version P) u32_max.
 
 Definition classify_cli (c : cli_case) : list bool :=
   [known_C13_status_names_only (cc_project c); known_C13_sql_prefix (cc_project c);
-   known_C13_unfilled_not_null c; known_C13_overwrite (cc_project c)].
+   known_C13_unfilled_not_null c; known_C13_pattern_without_version (cc_project c);
+   known_C13_version_saturated (cc_project c)].
